@@ -235,33 +235,55 @@ def rule_unlisted_field_keeps_its_name(repo: Repo, rep: Report, rule: str) -> No
         if not ovs:
             rep.error(f"{rule}: no override(rename=...) found in {fname} (anchor)")
             continue
-        # names that hold the field's own name: `<field>.name` of the loop over dataclasses.fields and locals assigned from it
-        own: set = set()
-        for st in own_nodes(fn.node):
-            if isinstance(st, ast.Assign) and isinstance(st.targets[0], ast.Name) and isinstance(st.value, ast.Attribute) and st.value.attr == "name":
-                own.add(st.targets[0].id)
-        items_keys: set = set()
-        for lp in [x for x in own_nodes(fn.node) if isinstance(x, (ast.For, ast.comprehension))]:
-            if isinstance(lp.iter, ast.Call) and isinstance(lp.iter.func, ast.Attribute) and lp.iter.func.attr in ("items", "keys", "values"):
-                items_keys |= {x.id for x in ast.walk(lp.target) if isinstance(x, ast.Name)}
+        def judge(fnode: ast.AST, own_seed: set, v: ast.AST, depth: int = 0) -> List[str]:
+            """[] when every value `v` can take in function `fnode` is the field's own name or a Meta map entry; else the offending texts"""
+            FL = Locals(fnode)
+            own = set(own_seed)
+            for st in own_nodes(fnode):
+                if isinstance(st, ast.Assign) and isinstance(st.targets[0], ast.Name) and isinstance(st.value, ast.Attribute) and st.value.attr == "name":
+                    own.add(st.targets[0].id)
+            items_keys: set = set()
+            for lp in [x for x in own_nodes(fnode) if isinstance(x, (ast.For, ast.comprehension))]:
+                if isinstance(lp.iter, ast.Call) and isinstance(lp.iter.func, ast.Attribute) and lp.iter.func.attr in ("items", "keys", "values"):
+                    items_keys |= {x.id for x in ast.walk(lp.target) if isinstance(x, ast.Name)}
 
-        def is_own(e: ast.AST) -> bool:
-            return (isinstance(e, ast.Name) and e.id in own) or (isinstance(e, ast.Attribute) and e.attr == "name")
+            def is_own(e: ast.AST) -> bool:
+                return (isinstance(e, ast.Name) and e.id in own) or (isinstance(e, ast.Attribute) and e.attr == "name")
+
+            def one(v: ast.AST, d: int) -> List[str]:
+                if is_own(v) or (isinstance(v, ast.Name) and v.id in items_keys):
+                    return []
+                if isinstance(v, ast.Name) and d < 4:
+                    ds = [x for k, x, _ in FL.defs.get(v.id, []) if x is not None and k != "param"]
+                    if ds:
+                        return [b_ for x in ds for b_ in one(x, d + 1)]
+                if isinstance(v, ast.IfExp):
+                    return one(v.body, d) + one(v.orelse, d)
+                if isinstance(v, ast.Call) and isinstance(v.func, ast.Attribute) and v.func.attr == "get" and len(v.args) == 2 and is_own(v.args[0]):
+                    return one(v.args[1], d)
+                if isinstance(v, ast.Call) and isinstance(v.func, ast.Attribute) and v.func.attr == "get" and len(v.args) == 1 and is_own(v.args[0]):
+                    return []
+                if isinstance(v, ast.Subscript) and is_own(v.slice):
+                    return []
+                if isinstance(v, ast.Call) and dotted(v.func) == "next" and any(isinstance(x, ast.Name) and x.id in items_keys for x in ast.walk(v)):
+                    return one(v.args[1], d) if len(v.args) >= 2 else []
+                # a helper of the module that is handed the field name: what it returns is judged in its own body
+                if isinstance(v, ast.Call) and isinstance(v.func, ast.Name) and v.func.id in conv.functions and depth < 2:
+                    h = conv.functions[v.func.id]
+                    hp = [p_ for p_ in h.params]
+                    seed = {hp[i] for i, a_ in enumerate(v.args) if i < len(hp) and is_own(a_)} | {k.arg for k in v.keywords if k.arg and is_own(k.value)}
+                    if seed:
+                        rets = [r.value for r in own_nodes(h.node) if isinstance(r, ast.Return) and r.value is not None]
+                        if rets:
+                            return [b_ for r in rets for b_ in judge(h.node, seed, r, depth + 1)]
+                return [norm(v)[:60]]
+
+            return one(v, 0)
 
         for ov in ovs:
             rv = next(k.value for k in ov.keywords if k.arg == "rename")
+            bad = judge(fn.node, set(), rv)
             vals = [rv]
-            if isinstance(rv, ast.Name):
-                vals = [v for k, v, _ in L.defs.get(rv.id, []) if v is not None] or [rv]
-            bad = []
-            for v in vals:
-                ok = is_own(v) or (isinstance(v, ast.Name) and v.id in items_keys) \
-                    or (isinstance(v, ast.Call) and isinstance(v.func, ast.Attribute) and v.func.attr == "get" and len(v.args) == 2 and is_own(v.args[0]) and is_own(v.args[1])) \
-                    or (isinstance(v, ast.Call) and isinstance(v.func, ast.Attribute) and v.func.attr == "get" and len(v.args) == 1 and is_own(v.args[0])) \
-                    or (isinstance(v, ast.Subscript) and is_own(v.slice)) \
-                    or (isinstance(v, ast.Call) and dotted(v.func) == "next" and any(isinstance(x, ast.Name) and x.id in items_keys for x in ast.walk(v)) and (len(v.args) < 2 or is_own(v.args[1])))
-                if not ok:
-                    bad.append(norm(v)[:60])
             sub = f"{conv.relpath}:{fname} wire key of a field"
             if bad:
                 rep.violation(rule, sub, f"{fn.fq}|derived-wire-key|{bad[0][:30]}",
